@@ -1150,6 +1150,15 @@ def wl_C14(tier, rng):
         m = max(max(e) for e in es) + 1
         ops += [f"q 1 hasEdge {m} 0", f"q 1 hasEdge {m - 1} 0", f"resize 1 {n}", "eq 0 1", "eq 1 0"]
         yield ({"cls": cls, "kind": kind, "n": n, "len": len(ops), "family": "big-index"}, ops)
+    # the byte-swapping primitive of the big-endian code path, and the endianness probe
+    for kind in BIN_KINDS:
+        if kind == "none":
+            continue
+        toks = {"chr": [0, 1, -1, 65, 127, -128], "i16": [0, 1, -1, 300, 32767, -32768, 258],
+                "int": [0, 1, -1, 70000, 2147483647, -2147483648, 16909060], "uint": [0, 1, 255, 256, 65536, 4294967295, 16909060],
+                "i64": [0, 1, -1, 2 ** 40 + 3, -(2 ** 40) - 3, 72623859790382856], "flt": [0, 1, -1, 6, -37, 1024, 3], "dbl": [0, 1, -1, 6, -37, 1024, 3]}[kind]
+        ops = [f"swapbytes {kind} {t}" for t in toks]
+        yield ({"cls": "-", "kind": kind, "n": 0, "len": len(ops), "family": "swapbytes"}, ops)
     # a file that cannot be opened: all six routines
     for cls in SIMPLE:
         for kind in ["none", "int"]:
